@@ -63,6 +63,20 @@ def stage(acc, d, texts, rng, n, pid, build_kind, kmax=4, descs=False):
             pick[rng.randrange(i + 1, k)] = pick[i]
         sep = rng.choice(SEPS)
         combos.append((pick, sep.join("(" + t + ")" for t in pick)))
+    # a few LONG queries: hundreds to a couple of thousand expressions (mostly failing ones in front, or a long run of blanks in front),
+    # so that the judged expressions sit thousands of bytes into the query and behind everything a query can accumulate while it runs
+    # (a depth counter that failing expressions never give back, seed C01-i; a length guard applied to the END offset of a phrase
+    # instead of its length, seed C16-i)
+    short = [t for t in pool if len(t) < 40]
+    if short and n >= 50:
+        for k in (300, 700, 1500):
+            front = [rng.choice(fails) if fails and rng.random() < 0.8 else rng.choice(short) for _ in range(k)] if rng.random() < 0.7 else []
+            tail = [rng.choice(pool) for _ in range(4)]
+            pick = front + tail
+            q = " ".join("(" + t + ")" for t in pick)
+            if not front:
+                q = " " * rng.choice([4090, 4096, 4100, 9000, 70000]) + q
+            combos.append((pick, q))
     try:
         reps = []
         for i in range(0, len(combos), 2000):
